@@ -22,6 +22,7 @@ import (
 	"math/big"
 	"reflect"
 	"strconv"
+	"time"
 )
 
 type nullTime = sql.NullTime
@@ -141,6 +142,15 @@ func DeepEqual(x, y interface{}) bool {
 			return parsed == number
 		}
 		return false
+	}
+
+	// two times are the same when they are the same instant: reflect.DeepEqual compares their locations too, and
+	// a value that went through an undo log comes back with a fixed zone where the driver gives the location of
+	// the connection (DSN parameter loc)
+	if tx, ok := typx.Interface().(time.Time); ok {
+		if ty, ok := typy.Interface().(time.Time); ok {
+			return tx.Equal(ty)
+		}
 	}
 
 	// a binary value comes out of the driver as text holding its bytes and out of an image as a byte slice
